@@ -833,6 +833,7 @@ void qvector_reverse(qvector_t *vector) {
     int j;
     void *tmp = malloc(vector->objsize);
     if (tmp == NULL) {
+        vector->unlock(vector);
         errno = ENOMEM;
         return;
     }
